@@ -149,6 +149,18 @@ def run(R):
             for sym, ver in sorted(got - want):
                 bad.append(("MAP COMPAT_ABI=%s SYMVER_FLOOR=%s %s@%s" % (ca, vfloor, sym, ver),
                             "with --enable-obsolete-api=%s the version script exports %s@%s, which libcrypt.map.in does not assign to that configuration" % (ca, sym, ver), ""))
+    # the symbol-version floor configure would pick does not depend on harmless whitespace in $CFLAGS (seeded/C20g: an empty first word made
+    # every preprocessor probe fail and the floor fall to the catch-all GLIBC_2.0, dropping the released @GLIBC_2.2.5 names)
+    floors = {}
+    script = os.path.join(cbuild.REPO, "build-aux/scripts/compute-symver-floor")
+    import platform
+    for cf in ("", "-O2", " -O2", "-O2 ", "  -g   -O2 ", "\t-O1"):
+        r = subprocess.run(["perl", script, os.path.join(cbuild.REPO, "lib/libcrypt.minver"), "linux-gnu", platform.machine()], text=True, capture_output=True,
+                           env=dict(os.environ, CC="gcc", CFLAGS=cf), cwd=R.scratch)
+        floors[cf] = (r.stdout.strip().splitlines() or ["<failed: %s>" % r.stderr.strip()[-120:]])[-1]
+    if len(set(floors.values())) != 1 or set(floors.values()) != {mv["SYMVER_FLOOR"]}:
+        bad.append(("compute-symver-floor with CFLAGS in %r" % sorted(floors), "the symbol-version floor depends on whitespace in CFLAGS or differs from the configured %s: %r"
+                    % (mv["SYMVER_FLOOR"], floors), str(floors)))
     R.cov["version_maps_checked"] = nmaps
     # compat-only names behave as their modern counterparts
     byop = dict(zip(ops, fresh))
